@@ -239,6 +239,7 @@ func (t *textSec) encoders(s string) {
 
 func (t *textSec) hashes(s string) {
 	w, b := t.w, t.b
+	w.Count("evaluations", 2) // md5 hex + raw; every hash() call below counts itself
 	want := md5.Sum([]byte(s))
 	r := b.Call("md5(verif_in(0))", sv(s))
 	if !t.crash("md5", r, s) {
@@ -280,6 +281,7 @@ func (t *textSec) hashes(s string) {
 // decodersTotal feeds arbitrary bytes to the text decoders: they must return (a string or
 // false) or throw a catchable error — never panic.
 func (t *textSec) decodersTotal(in string) {
+	t.w.Count("evaluations", 1)
 	for _, expr := range []string{"base64_decode(verif_in(0))", "base64_decode(verif_in(0), true)", "urldecode(verif_in(0))", "rawurldecode(verif_in(0))"} {
 		fn, _, _ := strings.Cut(expr, "(")
 		r := t.b.Call(expr, sv(in))
@@ -360,7 +362,7 @@ func runText(w *Worker) {
 
 	// seeded strings up to 4 KiB
 	r := w.Rand("strings")
-	n := w.Pick(4000, 200000) / w.N
+	n := w.Pick(8000, 200000) / w.N
 	for i := 0; i < n; i++ {
 		var s string
 		switch r.Intn(6) {
@@ -399,7 +401,6 @@ func runText(w *Worker) {
 		}
 		for _, m := range mutateText(r, enc, w.Pick(6, 12)) {
 			t.decodersTotal(m)
-			w.Count("evaluations", 1)
 		}
 		if i < 3 {
 			w.Sample(fmt.Sprintf("%q", s))
